@@ -416,8 +416,14 @@ class Array:
         """
         array = self._checkarrayforappend(array)
         fd.seek(0, 2)  # move to end
+        startpos = fd.tell()
         array.tofile(fd)
         fd.flush()
+        # numpy's tofile does not always report a failed write (e.g. disk
+        # full), so we check ourselves that everything arrived
+        fd.seek(0, 2)
+        if fd.tell() != startpos + array.nbytes:
+            raise OSError(f"could not write all data to '{self._datapath}'")
         return array.shape[0]
 
     def iterappend(self, arrayiterable):
@@ -470,6 +476,9 @@ class Array:
             array = self._checkarrayforappend(firstarray)
             try:
                 array.tofile(str(self._datapath))
+                if self._datapath.stat().st_size != array.nbytes:
+                    raise OSError(f"could not write all data to "
+                                  f"'{self._datapath}'")
             except Exception as exception:
                 # remove what may have been partially written
                 os.truncate(self._datapath, 0)
